@@ -24,7 +24,8 @@ ENGINE_TRUSTED = [
 
 # signature of a root-cause finding -> short tag appended to the signatures of its downstream symptoms
 ROOT_CAUSES = {"ack:reentrant-relock-answered-before-acknowledgement": "reentrant-ack-relock",
-               "ack:answered-succed-but-left-ack-pending": "never-persisted-ack-lock"}
+               "ack:answered-succed-but-left-ack-pending": "never-persisted-ack-lock",
+               "ack:request-id-registered-twice": "duplicate-request-id"}
 
 
 def theorems_of(pid):
